@@ -92,9 +92,22 @@ def install(e):
     install_send(e)
     install_send2(e)
     install_lock_discipline(e)
+    install_close(e)
+    install_init(e)
+
+
+def _install_logging(e):
+    L = "websocket._logging:"
+    for f in ("trace", "debug", "info", "error", "warning", "dump"):
+        e.add(Contract(L + f, assumed=True, havoc=lambda c, a, old, k: None,
+                       doc="logging call: effect-free (its argument expressions are evaluated by the caller)"))
+    for f in ("isEnabledForTrace", "isEnabledForError", "isEnabledForDebug"):
+        e.add(Contract(L + f, assumed=True, result=lambda c, a: c.fresh("bool", "log_enabled"), havoc=lambda c, a, old, k: None,
+                       doc="unconstrained boolean: both logging on and off are verified"))
 
 
 def _install_base(e):
+    _install_logging(e)
     e.add(Contract("_thread:allocate_lock", assumed=True, result=lambda c, a: c.new_ext("Lock"),
                    doc="threading.Lock(): a mutex (mutual exclusion, release/acquire ordering) - DESIGN 5 C12"))
 
@@ -274,7 +287,7 @@ def install_send(e):
         w0, w1, d0 = z(old.ghost["wire"]), z(c.ghost["wire"]), z(old.ghost["draws"])
         enc = spec.rfc_encode(fin, r1, r2, r3, op, mv, spec.keyfn(d0), data)
         n = slen(w1) - slen(w0)
-        return z3.And(n >= 0, n <= slen(enc), c.eq(w1, cat(w0, slc(enc, 0, n))))
+        return z3.And(n >= 0, n < slen(enc), c.eq(w1, cat(w0, slc(enc, 0, n))))
 
     def sf_inv(c, fr, entry):
         data, Fv = z(fr.locals["data"]), z(fr.locals["$F"])
@@ -330,7 +343,7 @@ def install_send2(e):
         w0, w1 = z(old.ghost["wire"]), z(c.ghost["wire"])
         enc = sent_frame(c, old, opcode, payload)
         n = slen(w1) - slen(w0)
-        return z3.And(n >= 0, n <= slen(enc), c.eq(w1, cat(w0, slc(enc, 0, n))))
+        return z3.And(n >= 0, n < slen(enc), c.eq(w1, cat(w0, slc(enc, 0, n))))
 
     def nothing_written(c, old, a, exc=None):
         return z3.And(c.eq(z(c.ghost["wire"]), z(old.ghost["wire"])), z(c.ghost["tx_calls"]) == z(old.ghost["tx_calls"]))
@@ -427,3 +440,189 @@ def install_lock_discipline(e):
                 c.prove("lock.release.I_frame(stage cleared)", z3.And(zn(c.getf(fb, "header")), zn(c.getf(fb, "length")),
                                                                       zn(c.getf(fb, "mask_value"))), node)
     e.lock_hooks["release"] = release
+
+
+# ===================================================================== C08: closing handshake / connection state machine
+def ghost_close(c):
+    if "auto_close" not in c.ghost:
+        c.ghost["auto_close"] = c.fresh("int", "auto_close")
+        c.ghost["clock"] = c.fresh("real", "clock")
+
+
+def WSI(c, ws, view=None):
+    """Object invariant of WebSocket (DESIGN 5 C08): no transport => not connected; at most one close frame written on the
+    client's own initiative (close() or the reply to the server's close), and once it is written the object is unconnected."""
+    v = view or c
+    ac = z(v.ghost["auto_close"])
+    conn = z(v.getf(ws, "connected"), "bool")
+    return z3.And(z3.Implies(zn(v.getf(ws, "sock")), z3.Not(conn)), ac >= 0, ac <= 1, z3.Implies(ac == 1, z3.Not(conn)))
+
+
+def install_close(e):
+    import time as _time
+    from .recv import FB, CF, fb_shape, ghost_msg, havoc_rx, RECV_EXC
+
+    def clock_res(c, a):
+        t0 = z(c.ghost["clock"], "real") if "clock" in c.ghost else None
+        t = c.fresh("real", "now")
+        if t0 is not None:
+            c.assume(t.t >= t0)
+        c.ghost["clock"] = t
+        return t
+    e.add(Contract("time:time", assumed=True, result=clock_res, havoc=lambda c, a, old, k: None,
+                   doc="time.time(): non-decreasing ghost clock"))
+    e.add(Contract("ext:sock.shutdown", assumed=True, havoc=lambda c, a, old, k: None, raises=[(OSError, None, None)],
+                   doc="sock.shutdown(how): may raise OSError; does not release the handle"))
+
+    # ---- shutdown ---------------------------------------------------------------------------------
+    def sd_case(c):
+        ws = mk_ws(c)
+        ghost_close(c)
+        return dict(self=ws)
+
+    def sd_post(c, old, a, res):
+        ws = a["self"]
+        had = z3.Not(zn(old.getf(ws, "sock")))
+        return z3.And(zn(c.getf(ws, "sock")),
+                      z(c.getf(ws, "connected"), "bool") == z3.And(z3.Not(had), z(old.getf(ws, "connected"), "bool")),
+                      z(c.ghost["closed_handles"]) == z(old.ghost["closed_handles"]) + z3.If(had, 1, 0))
+
+    def sd_havoc(c, a, old, k):
+        ws = a["self"]
+        had = z3.Not(zn(old.getf(ws, "sock")))
+        oc = old.getf(ws, "connected")
+        c.setf(ws, "sock", None)
+        c.setf(ws, "connected", SV("bool", z3.And(z3.Not(had), z(oc, "bool"))) if not isinstance(oc, bool) or oc else False)
+        c.ghost["closed_handles"] = SV("int", z(old.ghost["closed_handles"]) + z3.If(had, 1, 0))
+    e.add(Contract(K + "WebSocket.shutdown", cases=[("any", sd_case)], ensures=sd_post, havoc=sd_havoc,
+                   modifies=lambda c, a: [(a["self"], "sock"), (a["self"], "connected"), "ghost:closed_handles"], props=("C08", "C14", "C15"),
+                   doc="sock' = None; the handle is closed iff there was one; connected' = False (when there was a transport)"))
+
+    # ---- close --------------------------------------------------------------------------------------
+    def close_case(c):
+        ws = mk_ws(c, recv_state="any", keysrc="bytes")
+        ghost_close(c)
+        ghost_msg(c)
+        return dict(self=ws, status=c.fresh("int", "status"), reason=c.fresh("bytes", "reason"),
+                    timeout=c.fresh(("opt", "real"), "timeout"))
+
+    def bad_status(a):
+        return z3.Or(z(a["status"]) < 0, z(a["status"]) >= 65536)
+
+    def close_req(c, a):
+        ws = a["self"]
+        return z3.And(WSI(c, ws), FB(c, c.getf(ws, "frame_buffer")), slen(z(a["reason"])) < 2 ** 62)
+
+    def close_frame(c, old, a):
+        d0 = z(old.ghost["draws"])
+        return spec.rfc_encode(1, 0, 0, 0, 8, 1, spec.keyfn(d0), cat(spec.be_bytes(z(a["status"], "int"), 2), z(a["reason"])))
+
+    def close_post(c, old, a, res):
+        ws = a["self"]
+        conn0 = z(old.getf(ws, "connected"), "bool")
+        w0, w1 = z(old.ghost["wire"]), z(c.ghost["wire"])
+        enc = close_frame(c, old, a)
+        n = slen(w1) - slen(w0)
+        had = z3.Not(zn(old.getf(ws, "sock")))
+        return z3.And(
+            z3.Not(z3.And(conn0, bad_status(a))),
+            # the transport is released and the object unconnected, whatever happened in between
+            zn(c.getf(ws, "sock")), z3.Not(z(c.getf(ws, "connected"), "bool")),
+            z(c.ghost["closed_handles"]) == z(old.ghost["closed_handles"]) + z3.If(had, 1, 0),
+            # not connected: nothing is written; connected: at most the one close frame (a prefix of it if the write failed)
+            z3.Implies(z3.Not(conn0), z3.And(c.eq(w1, w0), z(c.ghost["auto_close"]) == z(old.ghost["auto_close"]))),
+            z3.Implies(conn0, z3.And(n >= 0, n <= slen(enc))),
+            z3.Implies(conn0, c.eq(w1, cat(w0, slc(enc, 0, n)))),
+            z3.Implies(conn0, z3.And(z(c.ghost["auto_close"]) <= z(old.ghost["auto_close"]) + 1,
+                                     z(c.ghost["auto_close"]) >= z(old.ghost["auto_close"]),
+                                     z3.Implies(n == slen(enc), z(c.ghost["auto_close"]) == z(old.ghost["auto_close"]) + 1))),
+            WSI(c, ws))
+
+    def close_val(c, old, a, exc):
+        ws = a["self"]
+        return z3.And(c.eq(z(c.ghost["wire"]), z(old.ghost["wire"])), z(c.ghost["tx_calls"]) == z(old.ghost["tx_calls"]),
+                      z(c.getf(ws, "connected"), "bool") == z(old.getf(ws, "connected"), "bool"),
+                      z(c.ghost["auto_close"]) == z(old.ghost["auto_close"]))
+
+    def after_send_in_close(c, fr, r):
+        if "auto_close" in c.ghost:
+            c.ghost["auto_close"] = SV("int", z(c.ghost["auto_close"]) + 1)
+    e.after_call[("WebSocket.close", "send")] = after_send_in_close
+
+    GH = ["rpos", "rx_calls", "fstart", "lastf", "clock"]
+
+    def close_loop_inv(c, fr, entry):
+        ws = fr.locals["self"]
+        return z3.And(FB(c, c.getf(ws, "frame_buffer")), z3.Not(z(c.getf(ws, "connected"), "bool")))
+
+    def close_loop_havoc(c, fr, entry):
+        ws = fr.locals["self"]
+        fb = c.getf(ws, "frame_buffer")
+        sh = fb_shape(False)[2]
+        c.setf(fb, "recv_buffer", c.fresh(("rope",), "recv_buffer"))
+        for f in ("header", "length", "mask_value"):
+            c.setf(fb, f, c.fresh(sh[f], f))
+        for g in GH:
+            c.ghost[g] = c.fresh("real" if g == "clock" else "int", g)
+    e.loop("WebSocket.close", 0, inv=close_loop_inv, havoc=close_loop_havoc, shapes={"frame": ("const", None), "recv_status": "int"},
+           keep=("frame",),
+           modifies=lambda c, fr: [(c.getf(fr.locals["self"], "frame_buffer"), f) for f in ("recv_buffer", "header", "length", "mask_value")])
+
+    def close_havoc(c, a, old, k):
+        ws = a["self"]
+        for g in ("wire", "tx_calls", "draws", "rpos", "rx_calls", "fstart", "lastf", "closed_handles", "auto_close"):
+            if g in c.ghost:
+                c.ghost[g] = c.fresh("bytes" if g == "wire" else "int", g)
+        if k == 0:
+            c.setf(ws, "sock", None)
+            c.setf(ws, "connected", False)
+            close_loop_havoc(c, type("F", (), {"locals": {"self": ws}})(), None)
+    e.add(Contract(K + "WebSocket.close", cases=[("any", close_case)], requires=close_req, ensures=close_post,
+                   raises=[(ValueError, lambda c, old, a: z3.And(z(old.getf(a["self"], "connected"), "bool"), bad_status(a)), close_val)],
+                   modifies=lambda c, a: [(a["self"], "sock"), (a["self"], "connected")] +
+                                         [(c.getf(a["self"], "frame_buffer"), f) for f in ("recv_buffer", "header", "length", "mask_value")] +
+                                         ["ghost:" + g for g in ("wire", "tx_calls", "draws", "rpos", "rx_calls", "fstart", "lastf", "closed_handles", "auto_close", "clock")],
+                   havoc=close_havoc, props=("C08", "C01", "C14"),
+                   doc="not connected: writes nothing; out-of-range status (while connected): ValueError before anything is written; otherwise "
+                       "at most one close frame rfc_encode(FIN, CLOSE, key, be16(status) ++ reason) (a prefix if the write fails), the wait loop "
+                       "writes nothing, and in every case the transport is released (sock' = None, handle closed, connected' = False); "
+                       "no exception escapes"))
+
+
+def install_init(e):
+    W = core_mod.WebSocket
+
+    def init_case(mt):
+        def case(c):
+            ghost_conn(c)
+            ws = c.alloc("obj", W, {})
+            d = dict(self=ws, fire_cont_frame=c.fresh("bool", "fire"), skip_utf8_validation=c.fresh("bool", "skip"))
+            if not mt:
+                d["enable_multithread"] = False  # the default configuration leaves the parameter to its declared default
+            return d
+        return case
+
+    def is_lock(v):
+        return isinstance(v, Ext) and v.kind == "Lock"
+
+    def init_post(c, old, a, res):
+        ws = a["self"]
+        fb, cf = c.getf(ws, "frame_buffer"), c.getf(ws, "cont_frame")
+        mt = a.get("enable_multithread", True)
+        locks_ok = (is_lock(c.getf(ws, "lock")) and is_lock(c.getf(ws, "readlock")) and c.getf(ws, "lock") is not c.getf(ws, "readlock")) \
+            if mt else True
+        return z3.And(zn(c.getf(ws, "sock")), z3.Not(z(c.getf(ws, "connected"), "bool")), z3.BoolVal(locks_ok),
+                      z3.BoolVal(is_lock(c.getf(fb, "lock"))),
+                      zn(c.getf(fb, "header")), zn(c.getf(fb, "length")), zn(c.getf(fb, "mask_value")),
+                      z3.BoolVal(c.cell(c.getf(fb, "recv_buffer")).data == []),
+                      zn(c.getf(cf, "cont_data")), zn(c.getf(cf, "recving_frames")))
+    e.add(Contract(K + "WebSocket.__init__", cases=[("multithread-default", init_case(True)), ("no-locks", init_case(False))],
+                   ensures=init_post, inline_at_calls=True, modifies=lambda c, a: [a["self"]], props=("C08", "C12"),
+                   doc="a new WebSocket has no transport, is unconnected, has an empty parser / reassembly state and, in the default "
+                       "configuration (enable_multithread=True), distinct real locks for sending and receiving"))
+
+    def abort_case(c):
+        ws = mk_ws(c)
+        return dict(self=ws)
+    e.add(Contract(K + "WebSocket.abort", cases=[("any", abort_case)], raises=[(OSError, None, None), (AttributeError, lambda c, old, a: zn(old.getf(a["self"], "sock")), None)],
+                   props=("C08",), doc="abort(): shuts the socket down for reading/writing when connected; changes no library state"))
